@@ -47,7 +47,9 @@ def hexsize(draw, n, odd):
     s = "%x" % n
     if not odd:
         return draw(st.sampled_from([s, s.upper(), "0" + s, "000" + s]))
-    v = draw(st.integers(0, 13))
+    v = draw(st.integers(0, 17))
+    if v > 13:
+        return ["0x" + s, "0X" + s.upper(), "0x0" + s, "0x" + s][v - 14]       # what int(x, 16) would also accept
     return [
         "0x" + s, "+" + s, "-" + s, s + " ", " " + s, s + "\t", "\t" + s, s + draw(st.sampled_from(WEIRD_WS)),
         draw(st.sampled_from(WEIRD_WS)) + s, s + "g", "", s + "_0", "%d" % n if n > 9 else s + "\x00",
@@ -61,7 +63,7 @@ def chunked_body(draw, data, odd):
     out = []
     i = 0
     n = len(data)
-    oddpos = draw(st.integers(0, 6)) if odd else -1
+    oddpos = draw(st.integers(0, 2)) if odd else -1
     k = 0
     while i < n:
         sz = draw(st.integers(1, max(1, n - i)))
@@ -69,7 +71,8 @@ def chunked_body(draw, data, odd):
         i += sz
         o = (k == oddpos)
         k += 1
-        line = hexsize(draw, sz, o and draw(st.booleans()))
+        odd_size = o and draw(st.booleans())
+        line = hexsize(draw, sz, odd_size)
         ext = ""
         if draw(st.integers(0, 60)) == 0:
             ext = ";x=" + "e" * draw(st.sampled_from([1000, 1030, 3000, 8200, 9000]))
@@ -78,7 +81,7 @@ def chunked_body(draw, data, odd):
                                         '; q="\r\n"' if o else ";z"]))
         term = "\r\n"
         dataterm = "\r\n"
-        if o:
+        if o and not odd_size:          # one deviation per chunk, so that a lenient parser would accept the rest
             v = draw(st.integers(0, 7))
             if v == 0:
                 term = "\n"
